@@ -18,6 +18,7 @@ SPEC = dict(
          'script; sleeps scaled 1/20, 15-30 ms tick rates); scenarios: 1-3 SIGTERM/SIGINT sent when every fan is ticking / gathering (start-up wait) / the last fan '
          'entered its first-second delay, 4 further signals when the restore of the slow fan is seen, 5 the RPM sensor of a fan under initialisation fails while the '
          'others regulate (Run returns an error), 6/7 the PID sensor of fan 0 fails (control error; without/with RPM monitor, then signals); quick 24 schedules, thorough 400; '
+         '8 SIGTERM when a not yet analysed fan starts its RPM measurement with UNSCALED sleeps (the analysis runs on for ~15 s; the process must live until it is complete and hand the fan back; 1 case in quick, 4 in thorough, run concurrently with the short ones); '
          'signals are sent on log markers only. ctlrun: the real DefaultFanController.Run in-process (real HwMonFan on temp files, real bbolt persistence decorated '
          'to fail single operations, stub curve that counts evaluations and injects the event at its 3rd evaluation): second load fails / is empty after a successful '
          'initialisation, hwmon fan without RPM input, control error with the device gone / present, cancellation while ticking, placeholder data not storable, failing '
